@@ -59,8 +59,9 @@ structure Scn where
 def mkScn (procName pre part0 n seed asz : String) : Option Scn :=
   match lenArg pre, lenArg part0, nat? n, nat? seed, int? asz with
   | some pre, some part0, some n, some seed, some asz =>
-    if procName ≠ "write" ∧ procName ≠ "wreader" ∧ procName ≠ "append" then none else
-    let staging := if procName = "write" then tmpName else partPath finalName
+    if procName ≠ "write" ∧ procName ≠ "wreader" ∧ procName ≠ "append" ∧ procName ≠ "writeR"
+        ∧ procName ≠ "wreaderR" then none else
+    let staging := if procName = "write" ∨ procName = "writeR" then tmpName else partPath finalName
     let fs0 : FS := FS.empty
     let fs0 := match pre with | some l => fs0.set finalName (genOld l) | none => fs0
     let fs0 := match part0 with | some l => fs0.set staging (genPart l) | none => fs0
@@ -70,7 +71,9 @@ def mkScn (procName pre part0 n seed asz : String) : Option Scn :=
 
 def opsFor (s : Scn) (chunks : List Bytes) : List Op :=
   if s.procName = "write" then writeOps finalName tmpName chunks
+  else if s.procName = "writeR" then writeRetryOps finalName tmpName chunks
   else if s.procName = "wreader" then writeReaderOps finalName chunks
+  else if s.procName = "wreaderR" then writeReaderRetryOps finalName chunks
   else appendReaderOps finalName chunks s.asz
 
 def cut (data : Bytes) (c : Nat) : List Bytes :=
